@@ -399,6 +399,7 @@ func (x *Exec) loopMods(fr *Frame, li *loopInfo) *modSet {
 				if !local {
 					for _, n := range names {
 						m.heaps[n] = true
+						m.direct[n] = true
 					}
 					if g, ok := i.Addr.(*ssa.Global); ok {
 						m.heaps["G_"+mangle(g.Pkg.Pkg.Path()+"."+g.Name())] = true
@@ -409,6 +410,8 @@ func (x *Exec) loopMods(fr *Frame, li *loopInfo) *modSet {
 					v, d := x.C.mapHeapNames(mt)
 					m.heaps[v] = true
 					m.heaps[d] = true
+					m.direct[v] = true
+					m.direct[d] = true
 				}
 			case *ssa.Alloc:
 				if esc(i) {
@@ -416,9 +419,11 @@ func (x *Exec) loopMods(fr *Frame, li *loopInfo) *modSet {
 					et := i.Type().(*types.Pointer).Elem()
 					if arr, isArr := et.Underlying().(*types.Array); isArr {
 						m.heaps[x.C.elemHeapName(arr.Elem())] = true
+						m.direct[x.C.elemHeapName(arr.Elem())] = true
 					} else {
 						for _, n := range x.heapsOfType(et, nil) {
 							m.heaps[n] = true
+						m.direct[n] = true
 						}
 					}
 				}
@@ -426,12 +431,15 @@ func (x *Exec) loopMods(fr *Frame, li *loopInfo) *modSet {
 				m.allocs = true
 				if !isByteSlice(i.Type()) {
 					m.heaps[x.C.elemHeapName(i.Type().Underlying().(*types.Slice).Elem())] = true
+					m.direct[x.C.elemHeapName(i.Type().Underlying().(*types.Slice).Elem())] = true
 				}
 			case *ssa.MakeMap:
 				m.allocs = true
 				v, d := x.C.mapHeapNames(i.Type().Underlying().(*types.Map))
 				m.heaps[v] = true
 				m.heaps[d] = true
+				m.direct[v] = true
+				m.direct[d] = true
 			case *ssa.MakeClosure, *ssa.MakeChan:
 				m.allocs = true
 			}
@@ -441,6 +449,7 @@ func (x *Exec) loopMods(fr *Frame, li *loopInfo) *modSet {
 					if b.Name() == "append" && !isByteSlice(cc.Args[0].Type()) {
 						m.allocs = true
 						m.heaps[x.C.elemHeapName(cc.Args[0].Type().Underlying().(*types.Slice).Elem())] = true
+						m.direct[x.C.elemHeapName(cc.Args[0].Type().Underlying().(*types.Slice).Elem())] = true
 					}
 					continue
 				}
@@ -479,11 +488,23 @@ func (x *Exec) applyMods(st *State, pre *State, ms *modSet, full map[string]bool
 			old = x.heap(st, name, sortS)
 		}
 		x.havocHeap(st, name)
-		if full[name] || strings.HasPrefix(name, "G_") || ms.all {
+		x.closedAt(st, name)
+		if full[name] || ms.full[name] || strings.HasPrefix(name, "G_") || ms.all {
 			continue
 		}
+		frontier := pre.alloc
+		if ms.direct[name] {
+			// written by the code under execution itself: only the frame claim of the function under
+			// verification (every store targets memory allocated in this activation, proved as the
+			// "frame" obligations) bounds what may have changed
+			top := x.top
+			if top == nil || top.con == nil || !top.con.HasAssigns || assignsAllows(top.con, name) {
+				continue
+			}
+			frontier = x.alloc0
+		}
 		nw := st.heaps[name]
-		st.assume(fmt.Sprintf("(forall ((r Int)) (! (=> (< r %s) (= (select %s r) (select %s r))) :pattern ((select %s r))))", pre.alloc, nw, old, nw))
+		st.assume(fmt.Sprintf("(forall ((r Int)) (! (=> (< r %s) (= (select %s r) (select %s r))) :pattern ((select %s r))))", frontier, nw, old, nw))
 	}
 	for _, g := range sortedKeys(ms.ghosts) {
 		x.havocHeap(st, "ghost:"+g)
